@@ -139,6 +139,27 @@ def gen_atoms(rng, pools, nmax=6, nodata=0.0):
     return out
 
 
+def gen_struct(rng, pools, depth=0, maxdepth=3, pool=None):
+    """nested [(count, key | list)] over atoms with neutron data; counts are dyadic so that the
+    regrouped variants have exactly equal totals"""
+    if pool is None:
+        pool = []
+    n = rng.choice([1, 2, 2, 3, 3, 4]) if depth == 0 else rng.choice([1, 2, 2, 3])
+    out = []
+    for _ in range(n):
+        c = rng.choice([1, 1, 2, 3, 4, 6, 0.5, 1.5, 2.25, 12, 0.125])
+        if depth < maxdepth and rng.random() < 0.3:
+            out.append((c, gen_struct(rng, pools, depth + 1, maxdepth, pool)))
+        else:
+            if pool and rng.random() < 0.35:
+                a = rng.choice(pool)
+            else:
+                a = pools.atom(rng)
+                pool.append(a)
+            out.append((c, a))
+    return out
+
+
 def gen_density(rng):
     r = rng.random()
     if r < 0.1:
